@@ -334,6 +334,13 @@ func (ex *Exec) valEq(a, b Value) *Term {
 				return BoolC(ptrEq(px, py))
 			}
 		}
+		if cx, okx := x.Imm.(*Closure); okx {
+			// ValueOf(f): the data word points to the function value; two Values are equal iff they hold the
+			// same function value (closure identity in the engine)
+			if cy, oky := y.Imm.(*Closure); oky {
+				return BoolC(cx == cy)
+			}
+		}
 		unsupported("== on reflect.Value of type %s (data pointer identity not modelled)", x.T)
 	case Opaque:
 		if y, ok := b.(Opaque); ok {
